@@ -71,3 +71,39 @@ Theorem C13_generated_returned_operator (F : fieldType) (p r : nat) (lmb : 'rV[F
   X^T *m modes = modes *m gen_dmd_Sigma lmb.
 Proof. exact: returned_operator_eigen. Qed.
 Print Assumptions C13_generated_returned_operator.
+
+(* ---------- Dmdc._fit_regressor as REGENERATED from the source on this run (Section GenDmdc of Gen/Regressors.v):
+   two truncated SVDs, the reduced operator, exact / projected modes, the least-squares reconstruction and
+   coef = hstack((A_r, B))^T.  SVD, eig and lstsq are oracles with explicit contracts. *)
+Theorem C13_generated_dmdc_projected_modes (F : fieldType) (pt pu q r rh : nat) (X_shifted : 'M[F]_(q,pt))
+  (Q_tld : 'M[F]_(pt + pu, r)) (sig_tld : 'rV[F]_r) (Z_tld : 'M[F]_(q,r)) (Q_hat : 'M[F]_(pt,rh))
+  (lmb : 'rV[F]_rh) (V_tld : 'M[F]_rh) :
+  gen_dmdc_eig_argument X_shifted Q_tld sig_tld Z_tld Q_hat *m V_tld = V_tld *m gen_dmdc_Sigma lmb ->
+  Q_hat^T *m Q_hat = 1%:M ->
+  (Q_hat *m gen_dmdc_A_tld X_shifted Q_tld sig_tld Z_tld Q_hat *m Q_hat^T) *m gen_dmdc_modes_projected Q_hat V_tld
+  = gen_dmdc_modes_projected Q_hat V_tld *m gen_dmdc_Sigma lmb.
+Proof. exact: dmdc_projected_modes_eigen. Qed.
+Print Assumptions C13_generated_dmdc_projected_modes.
+
+(* exact modes are eigenvectors of the full operator A when the SVD of the shifted data is not truncated *)
+Theorem C13_generated_dmdc_exact_modes (F : fieldType) (pt pu q r rh : nat) (X_shifted : 'M[F]_(q,pt))
+  (Q_tld : 'M[F]_(pt + pu, r)) (sig_tld : 'rV[F]_r) (Z_tld : 'M[F]_(q,r))
+  (Q_hat : 'M[F]_(pt,rh)) (sig_hat : 'rV[F]_rh) (Z_hat : 'M[F]_(q,rh)) (lmb : 'rV[F]_rh) (V_tld : 'M[F]_rh) :
+  gen_dmdc_eig_argument X_shifted Q_tld sig_tld Z_tld Q_hat *m V_tld = V_tld *m gen_dmdc_Sigma lmb ->
+  gen_dmdc_Theta_p X_shifted = Q_hat *m diag_mx sig_hat *m Z_hat^T -> Q_hat^T *m Q_hat = 1%:M ->
+  gen_dmdc_A X_shifted Q_tld sig_tld Z_tld *m gen_dmdc_modes_exact X_shifted Q_tld sig_tld Z_tld Q_hat V_tld
+  = gen_dmdc_modes_exact X_shifted Q_tld sig_tld Z_tld Q_hat V_tld *m gen_dmdc_Sigma lmb.
+Proof. exact: dmdc_exact_modes_untruncated. Qed.
+Print Assumptions C13_generated_dmdc_exact_modes.
+
+(* what is returned: the state block of coef^T is the reconstructed A_r, the input block is B, and modes_ /
+   eigenvalues_ are eigenpairs of that state block (whatever the truncation and the mode type) *)
+Theorem C13_generated_dmdc_returned_operator (F : fieldType) (pt pu q r rh : nat) (X_shifted : 'M[F]_(q,pt))
+  (Q_tld : 'M[F]_(pt + pu, r)) (sig_tld : 'rV[F]_r) (Z_tld : 'M[F]_(q,r)) (lmb : 'rV[F]_rh)
+  (modes : 'M[F]_(pt,rh)) (X : 'M[F]_pt) :
+  gen_dmdc_lstsq_lhs modes *m X = gen_dmdc_lstsq_rhs lmb modes ->
+  let coef := gen_dmdc_coef X_shifted Q_tld sig_tld Z_tld X^T in
+  lsubmx coef^T = X^T /\ rsubmx coef^T = gen_dmdc_B X_shifted Q_tld sig_tld Z_tld
+  /\ lsubmx coef^T *m modes = modes *m gen_dmdc_Sigma lmb.
+Proof. exact: dmdc_returned_operator. Qed.
+Print Assumptions C13_generated_dmdc_returned_operator.
